@@ -21,6 +21,9 @@ def run_check(pid: str, tier: str, seed: int, program=None, quiet=False, write=T
     """Run all rules of a property on the (given or current) tree. Returns (exit_code, Check)."""
     T.reset()
     nf.reset()
+    from . import interp as _interp
+
+    _interp.INLINED.clear()
     mod = importlib.import_module(f"pdqverif.rules.{pid.lower()}")
     chk = report.Check(pid, tier, seed, mod.EXPLANATION, level=getattr(mod, "LEVEL", "other"))
     try:
